@@ -206,7 +206,7 @@ def build_lib(flags=None, exclude=(), tag="asan"):
     return True, objs, ""
 
 
-LOOP_WRAPS = ["clock_gettime", "syscall", "pipe", "timerfd_create", "timerfd_settime", "epoll_ctl", "read",
+LOOP_WRAPS = ["clock_gettime", "syscall", "pipe", "epoll_create", "timerfd_create", "timerfd_settime", "epoll_ctl", "read",
               "epoll_pwait2", "epoll_wait", "ppoll", "poll"]
 
 
